@@ -99,7 +99,14 @@ fn kind_renamed(kind: &str, map: &BTreeMap<String, String>) -> String {
         match rest.find('"') {
             Some(j) => {
                 let name = &rest[..j];
-                out.push_str(map.get(name).map(|s| s.as_str()).unwrap_or(name));
+                // the kind's text is a Debug rendering: the new name appears escaped in it
+                match map.get(name) {
+                    Some(new) => {
+                        let dbg = format!("{:?}", new);
+                        out.push_str(&dbg[1..dbg.len() - 1]);
+                    }
+                    None => out.push_str(name),
+                }
                 out.push('"');
                 rest = &rest[j + 1..];
             }
@@ -227,7 +234,10 @@ pub fn oracle_with(case: &ProgCase, index: u64, ctx: &mut Ctx, gap_bound: usize)
     }
     // (b) renamings
     let mut maps: Vec<(String, BTreeMap<String, String>)> = Vec::new();
-    for (label, f) in [("ascii", (|n: &str| format!("x_{}", n)) as fn(&str) -> String), ("underscore", |n: &str| format!("_{}", n)), ("unicode", |n: &str| format!("é{}", n)), ("keyword-prefixed", |n: &str| format!("int_{}", n))] {
+    for (label, f) in [("ascii", (|n: &str| format!("x_{}", n)) as fn(&str) -> String), ("underscore", |n: &str| format!("_{}", n)), ("unicode", |n: &str| format!("é{}", n)), ("keyword-prefixed", |n: &str| format!("int_{}", n)),
+        // characters that may continue but not start an identifier: a combining accent, a
+        // non-ASCII digit, the middle dot, a connector; and a long name
+        ("unicode-continue", |n: &str| format!("{}e\u{301}\u{662}\u{b7}\u{203f}z", n)), ("long", |n: &str| format!("{}_{}", n, "x".repeat(200)))] {
         maps.push((label.to_string(), names.iter().map(|n| (n.clone(), f(n))).collect()));
     }
     let n = names.len();
